@@ -14,7 +14,7 @@ why = {
  "c07_b": "GlyfTable::subset / is_composite: no answer in 10 min",
  "c09_b": "CFF INDEX writer (serialise_offset_array) is outside; only offset_size itself is a kernel",
  "c10_b": "zlib-compressed WOFF entries are outside the bound",
- "c11_a": "needs a glyph count that is a multiple of 32; 32 (even 0) glyphs do not finish",
+ "c11_a": "needs a glyph count that is a multiple of 32; harnesses with 32 (and even 0) glyphs do not finish in 10 min",
  "c16_b": "packed flag decoder SimpleGlyph::read_dep: out of memory",
 }
 print("| seed | property | change (needs) | result | by |")
@@ -31,8 +31,8 @@ for sid in sorted(os.listdir(root)):
     det = r.get("detected")
     harn = sorted(set(h for run in r.get("runs", []) for h in run.get("failing_harnesses", [])))
     summ = (m.get("summary") or "").replace("|", "/").replace("\n", " ")
-    if len(summ) > 150:
-        summ = summ[:147] + "..."
+    if len(summ) > 110:
+        summ = summ[:107] + "..."
     res = "**caught**" if det else ("missed" if r else "not run")
     by = ", ".join("`%s`" % h for h in harn[:3]) if det else why.get(sid, "")
     print("| %s | %s | %s | %s | %s |" % (sid, m.get("property"), summ, res, by))
